@@ -187,6 +187,17 @@ def run(argv):
                 continue
             steps = [base_steps[0], {"op": "build", "id": "B", "desc": descs[b]}, {"op": "query", "id": "B"}] + base_steps[1:]
             jobs.append((f"edit-{a}-after-{b}", {"steps": steps}, rng.choice(seeds)))
+    # (c3) a line whose species the network already has (as reactants and as products): it changes how the species are connected,
+    #      hence their order; the network was rendered (its species looked at) before the line arrived
+    inner = {"upper": (native(78, ["SI", "H2"], ["HCL", "O"]), "naunet"), "elements-only": (native(78, ["CO", "H2"], ["OH", "C"]), "naunet"),
+             "multigroup": (native(78, ["H", "N2"], ["H2O", "CO"]), "naunet")}
+    for a, (line, fmt) in inner.items():
+        alone = [{"op": "build", "id": "A", "desc": descs[a]}, {"op": "add_line", "id": "A", "line": line, "fmt": fmt},
+                 {"op": "render", "id": "A", "backend": BACKENDS[0], "tag": [a + "+inner-line", "dense"]}]
+        jobs.append((f"inner-edit-{a}-alone", {"steps": alone}, 0))
+        jobs.append((f"inner-edit-{a}-after-own-render",
+                     {"steps": [alone[0], {"op": "render", "id": "A", "backend": BACKENDS[0], "tag": [a, "dense"]}, {"op": "query", "id": "A"}] + alone[1:]},
+                     rng.choice(seeds)))
     # (d) binding energies of another project must not matter to a network without ice species... they are global by
     #     design through the API; through the CLI each project states its own table: render P1 (with a binding-energy
     #     table), then P2 in the same process; P2 alone is the baseline.
